@@ -6,6 +6,7 @@ from vf.rrun import _det_obj
 from geometry_tools import representation as rp_mod, projective as pr, hyperbolic as h, lie, utils
 from geometry_tools.representation import Representation
 from geometry_tools.utils import words as W
+import contracts.p_words  # Engine P contracts (registered on import)
 
 P = "C05"
 R = "geometry_tools/representation.py:"
